@@ -20,8 +20,11 @@ INVALIDM == -5
 BIGM     == -9
 NOSTREAM == -1
 
-MiniLen   == 64
-CutoffLen == 4096
+(* Geometry that the rules depend on (real files: 64, 4096, 109; the design- *)
+(* level instance MC_Phys evaluates the same rules at a tiny geometry).      *)
+CONSTANTS MiniLen,       \* bytes per mini sector
+          CutoffLen,     \* mini-stream cutoff
+          DifatHdrLen    \* DIFAT entries in the header
 
 CeilDiv(a, b) == (a + b - 1) \div b
 
@@ -128,7 +131,7 @@ R2difat(img) ==
   /\ img.hdr.first_difat = (IF img.difat_secs = <<>> THEN ENDC ELSE img.difat_secs[1])
   /\ img.difat_end = ENDC
   /\ (img.difat_secs = <<>> => img.difat_ext = <<>>)
-  /\ (img.difat_secs # <<>> => Len(img.hdr.difat) = 109)
+  /\ (img.difat_secs # <<>> => Len(img.hdr.difat) = DifatHdrLen)
 R2fat(img) ==
   /\ \A i \in 1..Len(DifatList(img)) : DifatList(img)[i] >= 0 /\ DifatList(img)[i] < img.nsec
   /\ NoDup(DifatList(img))
